@@ -152,7 +152,9 @@ def run(tier, seed):
                     prefix = rng.choice(["/api/", "/v2", "/v2/", "/mirror/", "/a", "/api/v1/", "/"])
                     strip = rng.random() < 0.6
                     try:
-                        locs.append(LocationConfig(prefix=prefix, handler_type=HandlerType.PROXY, upstream=up, strip_prefix=strip, timeout=2.0))
+                        lc = LocationConfig(prefix=prefix, handler_type=HandlerType.PROXY, upstream=up, strip_prefix=strip, timeout=2.0)
+                        lc._as_written = (up, prefix, strip)       # what the operator configured (the referee's view, not the object's)
+                        locs.append(lc)
                     except (ValueError, TypeError):
                         pass
                 if len(locs) < 2: continue
@@ -166,7 +168,7 @@ def run(tier, seed):
                     line = gen_request(rng, loc_pick.prefix)
                     try: req = GeminiRequest.from_line(line)
                     except ValueError: continue
-                    first = next((l for l in locs if req.path.startswith(l.prefix)), None)
+                    first = next((l for l in locs if req.path.startswith(l._as_written[1])), None)
                     if first is None: continue
                     conns = []
                     async def fake_cc(factory, host=None, port=None, ssl=None, server_hostname=None, **kw):
@@ -185,7 +187,7 @@ def run(tier, seed):
                         r = None
                     finally:
                         del loop.create_connection
-                    lrecords.append(((first.upstream, first.prefix, first.strip_prefix), [(l.upstream, l.prefix, l.strip_prefix) for l in locs], req.path, req.query, line, conns, list(urlimpl._calls)))
+                    lrecords.append((first._as_written, [l._as_written for l in locs], req.path, req.query, line, conns, list(urlimpl._calls)))
         finally:
             shutil.rmtree(docroot, ignore_errors=True)
     asyncio.run(go_locations())
